@@ -45,7 +45,8 @@ LEVEL = "exploration"
 RULE = ("Generated histories (4-14 ops) of prep (= real LocalBuilder._preparePackageStep + _useSharedPackage on a "
         "project workspace slot), fin (build the generated package tree in the slot, then real "
         "_installSharedPackage), unuse (project drops the slot), gc(pruneUsed, pruneUnused, dryRun) as `bob clean "
-        "--shared` calls it and sync barriers, by 2-4 projects on one LocalShare store (quota none/tight/loose in "
+        "--shared` calls it and sync barriers (single ops and short templates: need, race for one build-id, churn, "
+        "usage history + gc, workspace switching to another package + forced gc), by 2-4 projects on one LocalShare store (quota none/tight/loose in "
         "eighths of the total package size, autoClean on/off, store directory missing or existing-but-empty at "
         "start, per-project --[no-]shared/--[no-]install); build-id = hash of the package content, so projects race "
         "for the same build-id with identical content. Mode seq: ops in order, usage history from a logical clock "
@@ -588,7 +589,7 @@ class Project:
         if calls:
             res["installed"] = bool(calls[-1][1][1])
             res["install_path"] = calls[-1][1][0]
-        if not (self.use and self.inst):
+        if os.path.isdir(w) and not os.path.islink(w):
             self.local[k] = p.idx
 
     def op_unuse(self, op, wk, res):
@@ -709,6 +710,9 @@ class Monitor:
             lu = w.link_users(p) if ent["ok"] else []
             ent["link_users"] = {x: self.linkgen[x] for x in lu}
             ent["bob_used"] = any(u in lu for u in ent.get("users", []))
+            for u in ent.get("users", []):
+                if os.path.islink(u) and u not in lu:
+                    self.labels.add("stale-user-entry-dangles" if not os.path.exists(u) else "stale-user-entry-points-elsewhere")
             ent["age"] = self.last_use.get(p.hex, 0) if self.mode == "seq" else ent.get("mtime", 0)
             pk[p.hex] = ent
         total = sum(v for v in listed.values()) if isinstance(repo, dict) else 0
@@ -768,7 +772,7 @@ class Monitor:
                     self.bad_read[wid] = cause
             except OSError:
                 pass
-        if info["ex"] and os.path.basename(info["path"]) == "pkg.json" and (self.cur.get(wid) or {}).get("op", [""])[0] == "prep":
+        if info["ex"] and os.path.basename(info["path"]) == "pkg.json" and (self.cur.get(wid) or {}).get("op", [""])[0] in ("prep", "fin"):
             self.use_lock_evno[self.cur[wid]["i"]] = self.evno
             pp = self.pkg_of(os.path.dirname(info["path"]))
             if pp is not None:
@@ -975,10 +979,11 @@ class Monitor:
         else:
             self.labels.add("gc-forced")
             for v in victims:
-                if pk[v]["bob_used"] and quota is not None and size <= quota:
+                certainly_used = pk[v]["bob_used"] and v not in touched      # touched: Bob may have seen either state
+                if certainly_used and quota is not None and size <= quota:
                     self.fail("forced-gc-removed-used-below-quota", "%s removed although size %d <= quota; %s" % (name(v), size, where))
                     return
-                if pk[v]["bob_used"] and any(u not in victims[:victims.index(v)] for u in unused):
+                if certainly_used and any(u not in victims[:victims.index(v)] for u in unused):
                     self.labels.add("info_forced_gc_took_used_before_unused")
                 size -= pk[v]["rsize"]
             if allu and (unused - set(victims)):
@@ -1074,10 +1079,19 @@ class Monitor:
                     self.nontrivial = True
             if pr.use and pr.inst and r["installed"] is not None:
                 W = r["W"]
-                if r["installed"] is False and os.path.isdir(W) and not os.path.islink(W) and self.mode != "seq":
-                    # the loser of an install race found the winner's package collected again before it could
-                    # register as user: it keeps its private (complete) result - a legitimate outcome
-                    self.labels.add("install-race-lost-kept-private")
+                if r["installed"] is False and not os.path.islink(W) and self.mode != "seq":
+                    # the loser of an install race could not register as user of the winner's package (useSharedPackage
+                    # returned None) and the builder made no link: legitimate only if the project still has its own,
+                    # complete result
+                    c = treecanon.canon(W) if os.path.isdir(W) else None
+                    if c == p.canon:
+                        self.labels.add("install-race-lost-kept-private")
+                    else:
+                        self.fail("result-lost-after-lost-install-race", "op #%d: installSharedPackage returned installed=False, the "
+                                  "builder created no link and %s %s: the project is left without the package result although "
+                                  "its state says it was built (the workspace had been moved into the store's temporary directory "
+                                  "before the final rename was lost, and is deleted with it)" %
+                                  (i, self.short(W), "does not exist" if c is None else "is incomplete: %r" % treecanon.diff(p.canon, c)[:3]))
                 else:
                     self.check_link(i, r, p, "install")
         elif kind == "gc":
@@ -1928,7 +1942,11 @@ def ops_st(conc):
     lru = st.tuples(st.lists(churn, min_size=2, max_size=4), st.lists(touch, max_size=2),
                     st.tuples(st.just("gc"), I, st.just(False), st.just(False), B).map(lambda t: [list(t)]) | need).map(
         lambda t: [op for l in t[0] for op in l] + [op for l in t[1] for op in l] + t[2])
-    alts = [prep, prep, fin, fin, need, need, need, race, race, churn, churn, lru, lru, unuse, unuse, gc, gc, gc]
+    # a workspace switches to another package (recipe changed): the old package keeps a stale user entry; then gcs
+    forced = st.tuples(st.just("gc"), I, st.just(True), B, st.just(False)).map(lambda t: [list(t)])
+    switch = st.tuples(I, SL, I, st.integers(1, 3), gc | forced | forced, gc | need).map(
+        lambda t: [["prep", t[0], t[1], t[2]], ["fin", t[0], 0], ["prep", t[0], t[1], t[2] + t[3]], ["fin", t[0], 0]] + t[4] + t[5])
+    alts = [prep, prep, fin, fin, need, need, need, race, race, churn, churn, lru, lru, switch, switch, unuse, unuse, gc, gc, gc]
     if conc:
         alts.append(st.just([["sync"]]))
     return st.one_of(alts)
@@ -2016,5 +2034,14 @@ def _f_creation(sig, case, detail):
     """repo.json is created empty (open 'x') and only then locked and written"""
     return sig == "repo-json-read-between-creation-and-lock" and case.get("mode") != "seq"
 
-FINDINGS = {"C15-unlock-before-flush": _f_unflushed, "C15-repo-json-creation-race": _f_creation, "C15-gc-on-empty-store": _f_gc_empty, "C15-install-race-loser-not-registered": _f_loser,
+def _f_dangling(sig, case, detail):
+    """sameWorkspace() raises for a user entry whose link dangles (points to a package that was collected / moved)"""
+    return sig.endswith("-raised-BuildError:Error inspecting workspace") and "No such file or directory" in detail
+
+def _f_lost_ws(sig, case, detail):
+    """race lost at the final rename (workspace already moved away) and useSharedPackage() returns None: no link, no workspace"""
+    return sig == "result-lost-after-lost-install-race" and case.get("mode") != "seq"
+
+FINDINGS = {"C15-gc-dangling-user-link": _f_dangling, "C15-lost-race-workspace-destroyed": _f_lost_ws,
+            "C15-unlock-before-flush": _f_unflushed, "C15-repo-json-creation-race": _f_creation, "C15-gc-on-empty-store": _f_gc_empty, "C15-install-race-loser-not-registered": _f_loser,
             "C15-gc-used-all-unused-without-quota-typeerror": _f_typeerror}
